@@ -437,6 +437,8 @@ class Interp:
             if isinstance(a, EnumSym):
                 r = z3.Or(*[a.eq(x) for x in b])
             elif isinstance(b, (list, tuple, dict, str)) and not is_z3(a):
+                def sym(x): return is_z3(x) or isinstance(x, SArr) or (isinstance(x, (tuple, list)) and any(sym(y) for y in x))
+                if isinstance(b, dict) and (sym(a) or any(sym(k) for k in b)): raise Unsupported("membership test of a symbolic key in a dictionary (caches keyed by parameters are outside the supported subset)")
                 r = a in b
             else: raise Unsupported("in")
             return r if op == "In" else (z3.Not(r) if is_z3(r) else not r)
